@@ -13,16 +13,19 @@ WantOf(pos) == CASE pos = "base" -> "interface" [] pos = "underlying" -> "primit
 
 VARIABLES placed,   \* module index -> kind of the definition T placed there, or "none"
           box,      \* module index that also declares the container Box (with a member T), or 0
-          ref, pos, rev
+          ref, pos, rev,
+          own       \* the definition that holds the reference has a member that is itself named T ('struct Use { T: T }',
+                    \* 'Use::T(T: T)', 'enum Use : T { T }'): members are no types and the search starts at the MODULE, so this changes nothing
 NoRef == [scope |-> <<>>, segs |-> <<>>, global |-> FALSE, at |-> 0]
 \* first the arrangement (initial states), then one reference per step (so that TLC's workers share the evaluation)
 Init == /\ placed \in [1..Len(Mods) -> Kinds \cup {"none"}]
         /\ Cardinality({i \in 1..Len(Mods) : placed[i] # "none"}) <= MaxPlaced
         /\ box \in Boxes
-        /\ ref = NoRef /\ pos = "none" /\ rev = FALSE
+        /\ ref = NoRef /\ pos = "none" /\ rev = FALSE /\ own = FALSE
 Next == /\ ref = NoRef
         /\ \E sc \in 1..Len(Mods), sp \in Spellings : ref' = [scope |-> Mods[sc], segs |-> sp.segs, global |-> sp.global, at |-> sc]
         /\ pos' \in Positions /\ rev' \in (IF pos' = "field" THEN BOOLEAN ELSE {FALSE})
+        /\ own' \in (IF ref'.segs = <<"T">> /\ ~ref'.global /\ pos' \notin {"alias", "base"} THEN BOOLEAN ELSE {FALSE})
         /\ UNCHANGED <<placed, box>>
 
 \* one file per module that declares something, plus the referencing file (which declares only its module)
@@ -31,12 +34,12 @@ FileOf(i) == [mod |-> Mods[i], ents |-> (IF placed[i] # "none" THEN <<[name |-> 
 Declaring == {i \in 1..Len(Mods) : placed[i] # "none" \/ box = i}
 Files == LET RECURSIVE Go(_)
              Go(i) == IF i > Len(Mods) THEN <<>> ELSE (IF i \in Declaring THEN <<FileOf(i)>> ELSE <<>>) \o Go(i + 1)
-         IN Go(1) \o <<[mod |-> ref.scope, ents |-> <<>>]>>
+         IN Go(1) \o <<[mod |-> ref.scope, ents |-> IF own THEN <<[name |-> "Use", kind |-> "container"]>> ELSE <<>>]>>
 
 \* C03, model level: without collisions the table walk finds exactly the designated entity, whatever the file order
 Reverse(s) == [i \in 1..Len(s) |-> s[Len(s) + 1 - i]]
 BindingIsDesignated == (ref # NoRef /\ NoCollision(Files)) => Lookup(Files, ref) = Designated(Files, ref)
 OrderIndependent    == (ref # NoRef /\ NoCollision(Files)) => Lookup(Reverse(Files), ref) = Lookup(Files, ref)
 Emit == ref # NoRef => PrintT(<<"CASE", ToJson([mods |-> Mods, placed |-> placed, box |-> box, scope |-> ref.scope, at |-> ref.at, segs |-> ref.segs, global |-> ref.global,
-                                 pos |-> pos, rev |-> rev, expect |-> Outcome(Designated(Files, ref), WantOf(pos))])>>)
+                                 pos |-> pos, rev |-> rev, own |-> own, expect |-> Outcome(Designated(Files, ref), WantOf(pos))])>>)
 ====================================================================================================
